@@ -307,9 +307,12 @@ func runChild(planFile, mode string) (childResult, string, error) {
 	var werr error
 	select {
 	case werr = <-done:
-	case <-time.After(90 * time.Second):
+	case <-time.After(300 * time.Second):
 		cmd.Process.Kill()
-		return childResult{}, out.String(), fmt.Errorf("child process hung (no result after 90 s): deadlock?")
+		<-done // the output buffer is only safe to read once the copying goroutines are finished
+		// A time budget hit is inconclusive (the machine may simply be overloaded), never a verdict;
+		// the output is kept in the message for manual triage of a possible deadlock.
+		return childResult{}, "", fmt.Errorf("harness: child process produced no result within 300 s (overload or deadlock?):\n%s", tail(out.String(), 1500))
 	}
 	s := out.String()
 	if strings.Contains(s, "WARNING: DATA RACE") {
